@@ -292,7 +292,8 @@ def run(ctx):
 
     # ---- R4 producer / leader-lookup refresh
     r = ctx.rule("R4", "producer resets topic metadata for stale-routing failures before retrying; leader lookup reloads when unknown", 2, "B")
-    crp = ctx.func("producer:Producer._handle_send_response._check_retry_payloads")
+    crp = producer_roles(ctx)["check_retry"]
+    need(crp is not None, "the producer's retry decision not found")
     rt = [c for c in calls_in(crp, "reset_topic_metadata")]
     # the topics to invalidate: collected from the failed payloads whose error is one of the two stale-routing classes
     adds = []
@@ -313,7 +314,8 @@ def run(ctx):
     chs = ctx.cfg(hsr)
     pr_ = hsr.first_param()
     ist = [n for n in chs.nodes if n.kind == "test" and norm(n.stmt.test) == "isinstance(%s, Failure)" % pr_]
-    fail_all = {n.id for n in chs.nodes if any(call_name(c) == "_deliver_result" and c.args and isinstance(c.args[0], ast.Call) and
+    dlv_ = producer_roles(ctx)["deliver"]
+    fail_all = {n.id for n in chs.nodes if any(dlv_ is not None and prog.resolve_call(hsr, c) is dlv_ and c.args and isinstance(c.args[0], ast.Call) and
                                                 call_name(c.args[0]) == "values" for c in n.calls())}
     if ist and fail_all:
         start_ = [t for t, lab in chs.succ[ist[0].id] if lab and lab[0] == "cond" and lab[2]]
